@@ -1,22 +1,28 @@
 // Package c18: three-way correspondence for C18 (PromQL answers equal Prometheus's).
 //
-//	(a) openGemini: a single-node ts-server built from /repo's working tree on every run,
-//	    samples ingested through the remote-write endpoint, queried through /api/v1/query and
-//	    /api/v1/query_range;
+//	(a) openGemini: ONE single-node ts-server per run, built from /repo's working tree (so a
+//	    VERIF_OVERLAY mutant reaches it), one database per sample set, samples ingested through
+//	    the remote-write endpoint (part of the sets flushed to data files, part left in the
+//	    memtable, part split), queried through /api/v1/query and /api/v1/query_range;
 //	(b) the Lean reference semantics (the driver answers the same op lines);
 //	(c) the upstream promql.Engine (module cache, version pinned by /repo/go.mod) over an
 //	    in-process tsdb.DB fed the same samples.
 //
 // `ref` lines carry the upstream answer (validates the Lean reference), `og` lines the
 // openGemini answer (implementation vs model); (a) vs (c) is the property itself and is
-// reported through c.Violation with a class assigned from the expression and its trigger.
+// reported through c.Violation with a root-cause class (classify.go).
+//
+// The HTTP route is used on purpose: handler_prom.go / results_merge_prom.go and the
+// remote-write path are anchors of the property and exist only behind the HTTP handlers.
 package c18
 
 import (
 	"fmt"
 	"os"
 	"path/filepath"
+	"strconv"
 	"strings"
+	"sync"
 	"time"
 
 	"verif/harness/internal/hx"
@@ -24,78 +30,261 @@ import (
 
 func init() { hx.Register("C18", Run) }
 
-const queriesPerSet = 12
+const batchSize = 10
+
+type plannedSet struct {
+	id      int
+	set     *sampleSet
+	info    *setInfo
+	rng     *hx.Rng
+	variant int // 0 memtable only, 1 flushed, 2 first half flushed + second half in the memtable
+	db      string
+	up      *upstream
+}
 
 func Run(c *hx.Ctx) error {
-	n := c.Budget(60, 3000)
+	n := c.Budget(240, 12000)
+	perSet := 12
+	if c.Tier == "thorough" {
+		perSet = 30
+	}
+	if v, err := strconv.Atoi(c.Arg("perset", "")); err == nil && v > 0 {
+		perSet = v
+	}
+	only, _ := strconv.Atoi(c.Arg("only", "-1"))
 	r := hx.NewRng(c.Seed)
-	c.Stats.Rule = "a (sample set, expression, time) case is non-trivial when the reference answer is non-empty and the case exercises a counter reset inside a window, a gap longer than the look-back, a staleness marker, or a boundary-exact sample"
+	c.Stats.Rule = "a (sample set, expression, time) case is non-trivial when the reference answer is non-empty"
+	c.Stats.Notes = append(c.Stats.Notes,
+		fmt.Sprintf("values compared with relative tolerance %g or absolute %g (both engines and the Lean reference); series, label sets and timestamps exactly; exact (bit-for-bit) on integer sample sets for expressions whose operations are exact", relTol, absTol),
+		"reference = upstream promql.Engine of the prometheus version pinned by /repo/go.mod over an in-process tsdb; look-back 5m unless the query passes lookback-delta")
 	out, err := filepath.Abs(c.Out)
 	if err != nil {
 		return err
 	}
+	// the server lives under the scratch directory of ./check (VERIF_SCRATCH, in /var/tmp)
+	tStart := time.Now()
 	srv, err := startServer(filepath.Join(out, "srv"))
+	if os.Getenv("C18_VERBOSE") != "" {
+		fmt.Fprintf(os.Stderr, "TIMING server build+start %v\n", time.Since(tStart))
+	}
 	if err != nil {
 		return fmt.Errorf("openGemini server cannot be run: %w", err)
 	}
 	defer srv.stop()
 	eng := newEngine()
 	verbose := os.Getenv("C18_VERBOSE") != ""
+	shrunk := false
 
 	cases := 0
-	for setID := 0; cases < n; setID++ {
-		sr := r.Fork()
-		set, info := genSet(sr, false)
-		db := fmt.Sprintf("c18s%d", setID)
-		if _, err := srv.influx("", "CREATE DATABASE "+db); err != nil {
+	nextID := 0
+	for cases < n {
+		// ---- plan a batch (sequential: every random choice derives from the seed) ----------
+		var batch []*plannedSet
+		planned := cases
+		for len(batch) < batchSize && planned < n {
+			sr := r.Fork()
+			big := c.Tier == "thorough" && sr.Chance(6)
+			set, info := genSet(sr, big)
+			ps := &plannedSet{id: nextID, set: set, info: info, rng: sr, variant: sr.Intn(3), db: fmt.Sprintf("c18s%d", nextID)}
+			nextID++
+			planned += perSet
+			if only >= 0 && ps.id != only {
+				continue
+			}
+			batch = append(batch, ps)
+		}
+		if only >= 0 && len(batch) == 0 {
+			if nextID > only {
+				break
+			}
+			cases = planned
+			continue
+		}
+		// ---- load it: phase A (to be flushed), flush, phase B ---------------------------------
+		tLoad := time.Now()
+		if err := loadBatch(srv, batch); err != nil {
 			return err
 		}
-		if err := srv.remoteWrite(db, set); err != nil {
-			return err
+		if verbose {
+			fmt.Fprintf(os.Stderr, "TIMING load batch of %d: %v\n", len(batch), time.Since(tLoad))
 		}
-		ns, np := set.counts()
-		if err := srv.waitVisible(db, set); err != nil {
-			return err
+		for _, ps := range batch {
+			up, err := openUpstream(filepath.Join(out, "up", ps.db), eng, ps.set)
+			if err != nil {
+				return err
+			}
+			ps.up = up
 		}
-		up, err := openUpstream(filepath.Join(out, "up", db), eng, set)
-		if err != nil {
-			return err
-		}
-		c.Emit(set.opLine(setID), fmt.Sprintf("ok %d %d", ns, np))
-		g := &exprGen{r: sr, info: info, set: set}
-		for k := 0; k < queriesPerSet && cases < n; k++ {
-			q := g.genQuery()
-			cases++
-			want := up.query(q)
-			got := srv.promQuery(db, q)
-			exact := set.allInt && exactExpr(q.e)
-			refLine := c.Emit(fmt.Sprintf("ref %d %s vals %s", setID, q.opTail(), want.values()), want.answer(exact))
-			_ = refLine
-			kind, desc := diffResults(&got, &want)
-			if kind == "" {
-				c.Emit(fmt.Sprintf("og %d %s vals %s", setID, q.opTail(), got.values()), got.answer(exact))
-			} else {
-				cls := classify(q, kind)
-				line := c.Emit(fmt.Sprintf("og-dev %s %d %s", cls, setID, q.opTail()), "dev "+cls)
-				c.Violation(line, cls, fmt.Sprintf("db=%s query=%q start=%d end=%d step=%d: %s", db, q.text, q.start, q.end, q.step, desc))
-				if verbose {
-					fmt.Fprintf(os.Stderr, "DIFF[%s] set=%d %q start=%d end=%d step=%d\n   %s\n", cls, setID, q.text, q.start, q.end, q.step, desc)
+		// ---- query --------------------------------------------------------------------------
+		for _, ps := range batch {
+			ns, np := ps.set.counts()
+			c.Emit(ps.set.opLine(ps.id), fmt.Sprintf("ok %d %d", ns, np))
+			c.Count(fmt.Sprintf("layout:%s", []string{"memtable", "flushed", "split"}[ps.variant]))
+			g := &exprGen{r: ps.rng, info: ps.info, set: ps.set}
+			for k := 0; k < perSet && cases < n; k++ {
+				q := g.genQuery()
+				cases++
+				want := ps.up.query(q)
+				got := srv.promQuery(ps.db, q)
+				exact := ps.set.allInt && exactExpr(q.e)
+				c.Emit(fmt.Sprintf("ref %d %s vals %s", ps.id, q.opTail(), want.values()), want.answer(exact))
+				kind, desc := diffResults(&got, &want)
+				feat := features(q, ps.set, &want)
+				for _, f := range feat {
+					c.Count("feature:" + f)
+				}
+				nontrivial := len(want.series) > 0
+				if kind == "" {
+					c.Emit(fmt.Sprintf("og %d %s vals %s", ps.id, q.opTail(), got.values()), got.answer(exact))
+				} else {
+					cls := classify(srv, ps, q, kind, &got, &want)
+					line := c.Emit(fmt.Sprintf("og-dev %s %d %s", cls, ps.id, q.opTail()), "dev "+cls)
+					full := fmt.Sprintf("query=%q start=%d end=%d step=%d lookback=%d layout=%d: %s", q.text, q.start, q.end, q.step, q.lb, ps.variant, desc)
+					if !knownClass(cls) && !shrunk {
+						// the first unclassified deviation is minimised: it becomes the replay
+						shrunk = true
+						full += " || minimised: " + shrink(srv, eng, filepath.Join(out, "shrink"), ps, q)
+					} else {
+						full += " || samples: " + relevantSamples(ps.set, q, 6)
+					}
+					c.Violation(line, cls, full)
+					c.Count("deviation:" + cls)
+					if verbose {
+						fmt.Fprintf(os.Stderr, "DIFF[%s] set=%d %q start=%d end=%d step=%d lb=%d\n   %s\n", cls, ps.id, q.text, q.start, q.end, q.step, q.lb, desc)
+					}
+				}
+				if nontrivial && len(c.Stats.Samples) < 5 && k == 0 {
+					c.Sample(fmt.Sprintf("%s @%d..%d/%d -> %s", q.text, q.start, q.end, q.step, want.structure()))
+				}
+				c.Case(fmt.Sprintf("%d/%s/%d/%d/%d/%d", ps.id, q.text, q.start, q.end, q.step, q.lb), nontrivial)
+				c.Count("expr:" + topKind(q.e))
+				if q.step == 0 {
+					c.Count("query:instant")
+				} else {
+					c.Count("query:range")
+				}
+				if want.err != "" {
+					c.Count("reference-error:" + want.err)
 				}
 			}
-			c.Case(fmt.Sprintf("%d/%s/%d/%d/%d", setID, q.text, q.start, q.end, q.step), len(want.series) > 0)
-			c.Count("expr:" + topKind(q.e))
-			if q.step == 0 {
-				c.Count("query:instant")
-			} else {
-				c.Count("query:range")
+		}
+		for _, ps := range batch {
+			ps.up.close()
+			if _, err := srv.influx("", "DROP DATABASE "+ps.db); err != nil {
+				return err
 			}
 		}
-		up.close()
-		if _, err := srv.influx("", "DROP DATABASE "+db); err != nil {
-			return err
+		if only >= 0 {
+			break
 		}
 	}
 	return nil
+}
+
+// loadBatch creates the databases and ingests the sets of a batch: what has to end up in data
+// files is written first and flushed (the flush command is server-wide), the rest afterwards.
+func loadBatch(srv *ogServer, batch []*plannedSet) error {
+	par := func(f func(ps *plannedSet) error) error {
+		var wg sync.WaitGroup
+		errs := make([]error, len(batch))
+		for i, ps := range batch {
+			wg.Add(1)
+			go func(i int, ps *plannedSet) {
+				defer wg.Done()
+				errs[i] = f(ps)
+			}(i, ps)
+		}
+		wg.Wait()
+		for _, e := range errs {
+			if e != nil {
+				return e
+			}
+		}
+		return nil
+	}
+	if err := par(func(ps *plannedSet) error {
+		_, err := srv.influx("", "CREATE DATABASE "+ps.db)
+		return err
+	}); err != nil {
+		return err
+	}
+	needFlush := false
+	if err := par(func(ps *plannedSet) error {
+		a, _ := ps.set.split(ps.variant)
+		if a == nil {
+			return nil
+		}
+		needFlush = true
+		if err := srv.remoteWrite(ps.db, a); err != nil {
+			return err
+		}
+		return srv.waitVisible(ps.db, a)
+	}); err != nil {
+		return err
+	}
+	if needFlush {
+		if err := srv.flush(); err != nil {
+			return err
+		}
+	}
+	if err := par(func(ps *plannedSet) error {
+		_, b := ps.set.split(ps.variant)
+		if b == nil {
+			return nil
+		}
+		return srv.remoteWrite(ps.db, b)
+	}); err != nil {
+		return err
+	}
+	return par(func(ps *plannedSet) error { return srv.waitVisible(ps.db, ps.set) })
+}
+
+// split: the part of the set written before the flush and the part written after it.
+func (s *sampleSet) split(variant int) (a, b *sampleSet) {
+	switch variant {
+	case 0:
+		return nil, s
+	case 1:
+		return s, nil
+	}
+	var lo, hi int64
+	first := true
+	for _, sr := range s.series {
+		for _, p := range sr.points {
+			if first || p.t < lo {
+				lo = p.t
+			}
+			if first || p.t > hi {
+				hi = p.t
+			}
+			first = false
+		}
+	}
+	mid := lo + (hi-lo)/2
+	a, b = &sampleSet{}, &sampleSet{}
+	for _, sr := range s.series {
+		sa, sb := series{labels: sr.labels}, series{labels: sr.labels}
+		for _, p := range sr.points {
+			if p.t <= mid {
+				sa.points = append(sa.points, p)
+			} else {
+				sb.points = append(sb.points, p)
+			}
+		}
+		if len(sa.points) > 0 {
+			a.series = append(a.series, sa)
+		}
+		if len(sb.points) > 0 {
+			b.series = append(b.series, sb)
+		}
+	}
+	if len(a.series) == 0 {
+		a = nil
+	}
+	if len(b.series) == 0 {
+		b = nil
+	}
+	return a, b
 }
 
 func topKind(e expr) string {
@@ -112,56 +301,11 @@ func topKind(e expr) string {
 	return "other"
 }
 
-// classify: provisional finding class (function names of the expression + kind of diff).
-func classify(q *query, kind string) string {
-	if kind == "err" {
-		return "err:" + kind
-	}
-	trig := ""
-	q.e.walk(func(x expr) {
-		if sel, ok := x.(*selector); ok {
-			for i := range sel.matchers {
-				m := &sel.matchers[i]
-				if m.re != nil && trig == "" {
-					trig = "matcher:regex"
-				}
-				if m.re == nil && m.lit == "" {
-					trig = "matcher:empty_value"
-				}
-			}
-		}
-	})
-	if trig != "" {
-		return trig
-	}
-	var parts []string
-	seen := map[string]bool{}
-	q.e.walk(func(x expr) {
-		k := ""
-		switch n := x.(type) {
-		case *rangeFn:
-			k = n.fn
-		case *aggExpr:
-			k = n.op
-		case *binExpr:
-			k = "bin"
-		}
-		if k != "" && !seen[k] {
-			seen[k] = true
-			parts = append(parts, k)
-		}
-	})
-	if len(parts) == 0 {
-		parts = []string{"selector"}
-	}
-	return strings.Join(parts, "+") + ":" + kind
-}
-
 // waitVisible polls until the written samples can be read back (a write is acknowledged
 // before a new series is visible to queries).
 func (s *ogServer) waitVisible(db string, set *sampleSet) error {
 	_, want := set.counts()
-	deadline := time.Now().Add(30 * time.Second)
+	deadline := time.Now().Add(60 * time.Second)
 	last := ""
 	for time.Now().Before(deadline) {
 		body, err := s.influx(db, "SELECT count(value) FROM /.*/")
@@ -176,5 +320,70 @@ func (s *ogServer) waitVisible(db string, set *sampleSet) error {
 		}
 		time.Sleep(50 * time.Millisecond)
 	}
-	return fmt.Errorf("samples of %s not visible after 30s: %s", db, last)
+	return fmt.Errorf("samples of %s not visible after 60s: %s", db, last)
+}
+
+// relevantSamples: the series of the metrics the expression names, restricted to the time
+// neighbourhood of the query, at most maxSeries of them (replay text of a deviation).
+func relevantSamples(set *sampleSet, q *query, maxSeries int) string {
+	names := map[string]bool{}
+	anyName := false
+	var minOff, maxOff, maxRng int64
+	q.e.walk(func(x expr) {
+		switch n := x.(type) {
+		case *selector:
+			m0 := &n.matchers[0]
+			if m0.kind == "eq" {
+				names[m0.lit] = true
+			} else {
+				anyName = true
+			}
+			if n.offset < minOff {
+				minOff = n.offset
+			}
+			if n.offset > maxOff {
+				maxOff = n.offset
+			}
+		case *rangeFn:
+			if n.rng > maxRng {
+				maxRng = n.rng
+			}
+		}
+	})
+	lb := q.lb
+	if maxRng > lb {
+		lb = maxRng
+	}
+	lo, hi := q.start-maxOff-lb-1000, q.end-minOff+1000
+	var parts []string
+	for _, sr := range set.series {
+		name := ""
+		for _, l := range sr.labels {
+			if l.name == "__name__" {
+				name = l.value
+			}
+		}
+		if !anyName && !names[name] {
+			continue
+		}
+		var pts []string
+		for _, p := range sr.points {
+			if p.t >= lo && p.t <= hi {
+				v := strconv.FormatFloat(p.v, 'g', -1, 64)
+				if isStale(p.v) {
+					v = "STALE"
+				}
+				pts = append(pts, fmt.Sprintf("%d:%s", p.t, v))
+			}
+		}
+		if len(pts) > 40 {
+			pts = append(pts[:20], append([]string{"…"}, pts[len(pts)-20:]...)...)
+		}
+		parts = append(parts, labelsKey(sr.labels)+" "+strings.Join(pts, " "))
+		if len(parts) >= maxSeries {
+			parts = append(parts, "…")
+			break
+		}
+	}
+	return strings.Join(parts, " ; ")
 }
